@@ -59,6 +59,16 @@ def check(run):
                 haswin, winlen = True, x2 - x1 + 1
             p.append(dict(op=o, x1=x1, y1=y1, x2=x2, y2=y2, v=500 + j))
         plans.append(p)
+    # large and lopsided shapes
+    for (w, h) in ((33, 17), (1, 200), (200, 1), (64, 64)) if run.quick() else ((33, 17), (1, 200), (200, 1), (64, 64), (300, 7), (7, 300), (128, 129)):
+        p = [dict(op="Reset", ty="int"), dict(op="New", w=w, h=h)]
+        for j in range(12):
+            x1, x2 = sorted((run.rng.randrange(w), run.rng.randrange(w)))
+            y1, y2 = run.rng.randrange(h), run.rng.randrange(h)
+            p.append(dict(op=run.rng.choice(["Set", "Fill", "RowSpan", "Row", "Get"]), x1=x1, y1=y1, x2=x2, y2=y2, v=800 + j))
+        p += [dict(op="Clone"), dict(op="Fill", x1=0, y1=0, x2=w - 1, y2=h - 1, v=3), dict(op="Get", x1=w - 1, y1=h - 1), dict(op="Set", x1=w, y1=0, v=1),
+              dict(op="Set", x1=0, y1=h, v=1)]
+        plans.append(p)
     # extreme coordinates (index arithmetic that wraps around must not land inside again): every coordinate of every call
     HUGE = ["minint", "minint1", "maxint", "maxint1", "p62", "m62", "p61", "m61", "p60", "p32", "m32", "p31", "wrap", "inv1", "inv2", "inv3"]
     shapes = [(4, 3), (3, 3), (8, 2), (16, 2), (5, 4), (1, 1), (64, 1), (7, 5), (2, 2), (0, 0), (3, 0), (0, 3)]
